@@ -3,6 +3,7 @@
 #include "oracles.h"
 #include <fstream>
 #include <iterator>
+#include <valgrind/valgrind.h>
 
 namespace vf {
 
@@ -117,8 +118,10 @@ inline void probe_C01(World& w, const WSnap& s, Sink& out, ProbeStats& st) {
 // cross-process (heap perturbation) join done by run.py.
 inline bool probe_C14(World& w, const WSnap& s, Sink& out, Key& digest, std::string* bytesOut = nullptr) {
     std::string p1 = w.path("c14a.c3d"), p2 = w.path("c14b.c3d"), what;
+    unsigned vgBefore = RUNNING_ON_VALGRIND ? VALGRIND_COUNT_ERRORS : 0;
     Outcome oc = guarded([&] { w.c->write(p1); }, &what);
     if (oc != OK) return false;   // not this property's business
+    if (RUNNING_ON_VALGRIND && VALGRIND_COUNT_ERRORS != vgBefore) V(out, "C14", "undefined_bytes/memcheck", "memcheck reported " + S(VALGRIND_COUNT_ERRORS - vgBefore) + " error(s) (uninitialised bytes reaching write) during save");
     WSnap mid = snapWorld(w);
     if (mid.key != s.key) V(out, "C14", std::string("save_changed_object/") + (!(mid.o.h == s.o.h) ? "header" : !mid.o.sameParams(s.o) ? "parameters" : !mid.o.sameFrames(s.o) ? "frames" : "other"), "object differs after write()");
     oc = guarded([&] { w.c->write(p2); }, &what);
